@@ -69,6 +69,8 @@ def run(ctx):
     ctx.need('C07.R1', 28)
     from checks.recordloop import check_raw_record_fields
     check_raw_record_fields(ctx, 'C07.R1', rl)
+    from checks.recordloop import check_terminus_latch
+    check_terminus_latch(ctx, 'C07.R3', rl)
     from checks.recordloop import check_membership_params_materialised
     check_membership_params_materialised(ctx, 'C07.R3', rl)
     # element derived only from the name columns (all definitions)
@@ -189,15 +191,25 @@ def run(ctx):
         avar = avars[0] if avars else 'atom'
         atoms = {"%s.element == 'H'" % avar: ('isH', True), "%s.element != 'H'" % avar: ('isH', False),
                  'keep_protons': ('keep', True)}
-        gs = [g for g in guards_of(ys[0], rl.atom_block) if g[2] == 'if'
-              and g[0] is not rl.atom_block.test]
-        if len(gs) == 1 and gs[0][1]:
-            res = common.bool_table(gs[0][0], atoms)
-            if res is not None:
-                variables, table = res
-                ok = all(val == ((not dict(zip(variables, combo))['isH'])
-                                 or dict(zip(variables, combo))['keep'])
-                         for combo, val in table.items()) and len(variables) == 2
+        # every condition on the way to the yield that mentions the element or
+        # the option: enclosing ifs and the `if ...: continue` filters before it
+        gs = [(e, pol) for e, pol in facts_at(ys[0], rl.atom_block)
+              if e is not rl.atom_block.test and (
+                  any(isinstance(x, ast.Attribute) and x.attr == 'element' for x in ast.walk(e))
+                  or any(isinstance(x, ast.Name) and x.id == 'keep_protons' for x in ast.walk(e)))]
+        tables = [common.bool_table(e, atoms) for e, _pol in gs]
+        if gs and all(t is not None for t in tables):
+            import itertools
+            ok = True
+            for is_h, keep in itertools.product([False, True], repeat=2):
+                reached = True
+                for (e, pol), (variables, table) in zip(gs, tables):
+                    env = {'isH': is_h, 'keep': keep}
+                    val = table[tuple(env[v] for v in variables)]
+                    if val != pol:
+                        reached = False
+                if reached != ((not is_h) or keep):
+                    ok = False
     ctx.ob('C07.R3', 'hydrogens:stripped-unless-keep-protons', ok,
            'an atom is yielded iff it is not a hydrogen or keep_protons is set', rl.mod,
            ys[0] if ys else rl.loop)
